@@ -337,6 +337,37 @@ def generate(repo, g):
                 first.append(n.name)
     g.define('resetFirst', 'List String', lean_list(sorted(first)),
              'jedi/api/__init__.py: Script methods whose first statement is reset_recursion_limitations()')
+    # ... or that reach such a method through `self.<method>(...)` calls before anything else can
+    # infer (search -> _search_func -> _names, get_names -> _names, rename -> get_references):
+    # least fixpoint over "some call self.X(...) in the body with X already in the set"
+    bodies = {n.name: n for n in script.body if isinstance(n, ast.FunctionDef)}
+    reach = set(first)
+    changed = True
+    while changed:
+        changed = False
+        for name, n in bodies.items():
+            if name in reach:
+                continue
+            callees = {c.func.attr for c in ast.walk(n) if isinstance(c, ast.Call)
+                       and isinstance(c.func, ast.Attribute) and u(c.func.value) == 'self'}
+            if callees & reach:
+                reach.add(name)
+                changed = True
+    g.define('resetReach', 'List String', lean_list(sorted(reach)),
+             'jedi/api/__init__.py: Script methods that open with reset_recursion_limitations() or call such a '
+             'method on self')
+    public = sorted(n for n, f in bodies.items() if not n.startswith('_')
+                    and [a.arg for a in f.args.args[1:3]] == ['line', 'column'])
+    g.define('positionQueries', 'List String', lean_list(public),
+             'jedi/api/__init__.py: public Script methods taking (line, column)')
+    rec = Src(repo, 'jedi/inference/recursion.py')
+    for py, lean in [('recursion_limit', 'recursionLimit'), ('total_function_execution_limit', 'totalLimit'),
+                     ('per_function_execution_limit', 'perFnLimit'),
+                     ('per_function_recursion_limit', 'perFnRecLimit')]:
+        v = rec.const(py)
+        if not isinstance(v, int) or isinstance(v, bool) or v < 0:
+            raise TieBroken('recursion.py: %s is not a natural number' % py, repr(v))
+        g.define(lean, 'Nat', str(v), 'jedi/inference/recursion.py:' + py)
     fn = inf.find('InferenceState.reset_recursion_limitations')
     g.define('resetAssigns', 'List String',
              lean_list(sorted(u(n.targets[0]) for n in fn.body if isinstance(n, ast.Assign))),
